@@ -94,6 +94,27 @@ pub fn cases(f: &mut dyn FnMut(Value) -> bool) {
             }
         }
     }
+    // Part A2: a dimension stated twice where the FIRST statement is a value an implementation might
+    // use as its "not read yet" marker (0, the maxima); the later one is consistent with the rest
+    for marker in ["0", "18446744073709551615", "9223372036854775807", "4294967295"] {
+        for (dim, other, okv, otherv) in [("num_cols", "num_rows", "2", "1"), ("num_rows", "num_cols", "1", "2")] {
+            let d = |v: &str| (dim.to_string(), v.to_string());
+            let o = (other.to_string(), otherv.to_string());
+            let data = ("data".to_string(), "[10,11]".to_string());
+            let docs = [
+                vec![d(marker), d(okv), o.clone(), data.clone()],
+                vec![d(marker), o.clone(), d(okv), data.clone()],
+                vec![d(marker), o.clone(), data.clone(), d(okv)],
+                vec![data.clone(), d(marker), d(okv), o.clone()],
+                vec![d(okv), d(marker), o.clone(), data.clone()],
+            ];
+            for fields in docs.iter() {
+                if !emit(f, fields) {
+                    return;
+                }
+            }
+        }
+    }
     // Part B: the three fields in every order, every dimension value, data around the product
     let orders: [[usize; 3]; 6] = [[0, 1, 2], [0, 2, 1], [1, 0, 2], [1, 2, 0], [2, 0, 1], [2, 1, 0]];
     for dc in dim_values() {
